@@ -23,6 +23,7 @@ FLAVOURS = {
     'gcc-asan':   ('g++',     '-std=c++11 -O1 ' + SAN, 'single'),
     'clang-asan-dev': ('clang++', '-std=c++11 -O1 ' + SAN + ' -fno-sanitize=object-size', 'dev'),
     'gcc-O2':     ('g++',     '-std=c++11 -O2', 'single'),
+    'gcc-vg':     ('g++',     '-std=c++11 -O1 -g', 'single'),      # executed under valgrind memcheck
     'clang-vlog': ('clang++', '-std=c++11 -O0 -DHFSM2_ENABLE_VERBOSE_DEBUG_LOG', 'single'),
     'clang-tsan': ('clang++', '-std=c++11 -O1 -g -fsanitize=thread', 'single'),
     'gcc-tsan':   ('g++',     '-std=c++11 -O1 -g -fsanitize=thread', 'single'),
@@ -116,8 +117,9 @@ def pmap(fn, items, jobs=None):
     with cf.ThreadPoolExecutor(max_workers=jobs or JOBS) as ex:
         return list(ex.map(fn, items))
 
-def run_bin(binp, args, timeout=300, env=None, stdout_path=None):
+def run_bin(binp, args, timeout=300, env=None, stdout_path=None, memcheck=False):
     e = dict(os.environ); e.update(SAN_ENV)
+    if memcheck: args = ['-q', '--error-exitcode=99', '--track-origins=no', binp] + list(args); binp = 'valgrind'
     if env: e.update(env)
     try:
         if stdout_path:
@@ -150,7 +152,7 @@ def sanitizer_key(stderr):
         if 'WATCHDOG' in s: kind = 'hang'
         else: return None
     frame = '?'
-    for fm in re.finditer(r'#\d+ 0x[0-9a-f]+ in ([^\n]{0,4000})', s):
+    for fm in re.finditer(r'(?:#\d+ 0x[0-9a-f]+ in |==\d+==\s+(?:at|by) 0x[0-9A-Fa-f]+: )([^\n]{0,4000})', s):
         fn = fm.group(1)
         if 'hfsm2::' in fn:
             fn = re.sub(r'<[^<>]*>', '', fn)
